@@ -4,6 +4,7 @@ import re
 
 from .. import build
 from .. import crossconfig as cc
+from ..analysis import strip_through
 from ..analysis import Origins, fmt_terms
 from ..serde_tables import (SER, VAR, agg_payload, casts_in, int_entry_ok, number_from_calls, unwrap_ok,
                             variable_variants)
@@ -160,23 +161,26 @@ def check_generic(ctx, lib, cfg):
         ctx.missing(rule, "blanket", "<T as ToJmespath>::to_jmespath")
         return
     o = Origins(b, lib)
-    calls = [(bb, t) for bb, t in b.calls()]
-    names = [t["callee"] for _, t in calls]
-    ok = names == ["variable::Variable::from_serializable", "std::result::Result::<T, E>::map"]
+    # spelling-independent (map(Rcvar::new), `?` + Ok, match): one from_serializable(self); the result is Ok(Rcvar::new(its value))
+    # or its error passed through
+    names = sorted({t["callee"] for _, t in b.calls() if not t["callee"].startswith("std::ops::")})
+    fsc = [t for _, t in b.calls() if t["callee"] == "variable::Variable::from_serializable"]
+    ok = len(fsc) == 1 and o.of_operand(fsc[0]["args"][0]) == {("param", 1)} and \
+        all(n == "variable::Variable::from_serializable" or re.match(r"^std::(rc::Rc|sync::Arc)::<T>::new$", n) for n in names)
     if ok:
-        ok = o.of_operand(calls[0][1]["args"][0]) == {("param", 1)}
-        f = o.of_operand(calls[1][1]["args"][1])
-        # mapped with Rc::new / Arc::new, directly or through a closure that only wraps
-        for t in f:
-            if t[0] == "fnitem":
-                ok = ok and re.match(r"^std::(rc::Rc|sync::Arc)::<T>::new$", t[1]) is not None
-            elif t[0] == "closure":
-                cb = lib.fn(t[1])
-                cc_ = [x["callee"] for _, x in cb.calls()] if cb else None
-                ok = ok and cb is not None and len(cc_) == 1 and re.match(r"^std::(rc::Rc|sync::Arc)::<T>::new$", cc_[0]) is not None \
-                    and Origins(cb).of_operand(list(cb.calls())[0][1]["args"][0]) == {("param", 2)}
-            else:
-                ok = False
+        def from_fs(t):
+            t = strip_through(t)
+            return t[0] == "call" and t[1] == "variable::Variable::from_serializable"
+        wraps = [t for _, t in b.calls() if re.match(r"^std::(rc::Rc|sync::Arc)::<T>::new$", t["callee"])]
+        ok = len(wraps) == 1 and all(from_fs(x) for x in o.of_operand(wraps[0]["args"][0])) and bool(o.of_operand(wraps[0]["args"][0]))
+        for t in o.of_local(0):
+            if from_fs(t):
+                continue
+            if t[0] == "agg" and t[1] == "std::result::Result::Ok" and t[2][0] and all(from_fs(x) for x in t[2][0]):
+                continue
+            if t[0] == "agg" and t[1] == "std::result::Result::Err" and t[2][0] and all(from_fs(x) for x in t[2][0]):
+                continue
+            ok = False
     ctx.check(ok, rule, "blanket", f"[{cfg}] generic to_jmespath = Variable::from_serializable(self).map(Rcvar::new) (calls {names})", b.span)
     fs = lib.fn("variable::Variable::from_serializable")
     tv = lib.fn("variable::to_variable")
@@ -271,9 +275,18 @@ def check_conversions(ctx, lib, cfg):
             ctx.check(ok and gok, rule, key, f"[{cfg}] {st}: both paths build Variable::{want} of the argument itself", b.span)
         elif st in ("serde_json::Value", "&'a serde_json::Value"):
             calls = [t for _, t in b.calls()]
-            names = [t["callee"] for t in calls]
-            ok = names == ["std::convert::TryInto::try_into", "std::result::Result::<T, E>::map"] and \
-                o.of_operand(calls[0]["args"][0]) == {("param", 1)} and calls[0]["callee_args"][1] == VAR
+            ti = [t for t in calls if t["callee"] == "std::convert::TryInto::try_into"]
+            names = sorted({t["callee"] for t in calls if not t["callee"].startswith("std::ops::")})
+            ok = len(ti) == 1 and o.of_operand(ti[0]["args"][0]) == {("param", 1)} and ti[0]["callee_args"][1] == VAR and \
+                all(n == "std::convert::TryInto::try_into" or re.match(r"^std::(rc::Rc|sync::Arc)::<T>::new$", n) for n in names)
+            if ok:
+                def from_ti(t):
+                    t = strip_through(t)
+                    return t[0] == "call" and t[1] == "std::convert::TryInto::try_into"
+                for t in o.of_local(0):
+                    if from_ti(t) or (t[0] == "agg" and t[1].startswith("std::result::Result::") and t[2][0] and all(from_ti(x) for x in t[2][0])):
+                        continue
+                    ok = False
             ctx.check(ok, rule, key, f"[{cfg}] {st}: Variable::try_from(self) wrapped in Rcvar (kind table checked under C08 value-conversion)", b.span)
         elif st in ("std::rc::Rc<variable::Variable>", "&'a std::rc::Rc<variable::Variable>"):
             inner = unwrap_ok(ret)
